@@ -28,7 +28,7 @@ STRATIFIED = True
 
 
 def strategy(ctx, shard=0):
-    return em.st_program(max_points=6, max_edits=ctx.pick(30, 60), samplers=True, forks=False, sampler_heavy=(shard % 4 == 3))
+    return em.st_program(max_points=6, max_edits=ctx.pick(30, 60), samplers=True, forks=False, sampler_heavy=(shard % 4 == 3), big=(shard % 8 == 6))
 
 
 def budget(ctx):
